@@ -187,7 +187,10 @@ func VerifC09Trusted() {
 	hasMethod := has("X-Forwarded-Method", "POST")
 	hasProto := has("X-Forwarded-Proto", "https")
 	hasHost := has("X-Forwarded-Host", "fwd.host:8443")
-	hasURI := has("X-Forwarded-Uri", "/fwd/p%20q?x=y")
+	// the forwarded URI carries path and query, only a path, or only a query: each part that is absent falls
+	// back to the actual request
+	uriKind := verifapi.NondetChoice("X-Forwarded-Uri.parts", 3)
+	hasURI := has("X-Forwarded-Uri", []string{"/fwd/p%20q?x=y", "/fwd/p%20q", "?x=y"}[uriKind])
 	hasPath := has("X-Forwarded-Path", "/ignored")
 	hasFor := has("X-Forwarded-For", "198.51.100.1, 198.51.100.2")
 	hasForwarded := has("Forwarded", "for=203.0.113.9;proto=https, for=203.0.113.10")
@@ -204,8 +207,8 @@ func VerifC09Trusted() {
 	verifapi.Assert("C09/trusted/method", got.method == want(hasMethod, "POST", "GET"))
 	verifapi.Assert("C09/trusted/scheme", got.scheme == want(hasProto, "https", "http"))
 	verifapi.Assert("C09/trusted/host", got.host == want(hasHost, "fwd.host:8443", "real.host"))
-	verifapi.Assert("C09/trusted/path", got.path == want(hasURI, "/fwd/p q", "/real/path"))
-	verifapi.Assert("C09/trusted/query", got.query == want(hasURI, "x=y", "a=b"))
+	verifapi.Assert("C09/trusted/path", got.path == want(hasURI && uriKind != 2, "/fwd/p q", "/real/path"))
+	verifapi.Assert("C09/trusted/query", got.query == want(hasURI && uriKind != 1, "x=y", "a=b"))
 	peer := strings.TrimSuffix(addr, ":4711")
 	ips := peer
 	switch {
